@@ -634,7 +634,7 @@ def _decode_transform(data: bytes):
 
 
 def transform_string():
-    return st.binary(min_size=420, max_size=420).map(_decode_transform)
+    return st.binary(min_size=600, max_size=600).map(_decode_transform)
 
 
 _Q_SPECIAL = [F(0), F(1), F(-1), F(1, 2), F(2)]
@@ -717,7 +717,7 @@ def _decode_algebra(data: bytes):
 
 
 def algebra_case():
-    return st.binary(min_size=200, max_size=200).map(_decode_algebra)
+    return st.binary(min_size=256, max_size=256).map(_decode_algebra)
 
 
 def _decode_compose(data: bytes):
@@ -735,7 +735,7 @@ def _decode_compose(data: bytes):
 
 
 def compose_case():
-    return st.binary(min_size=260, max_size=260).map(_decode_compose)
+    return st.binary(min_size=330, max_size=330).map(_decode_compose)
 
 
 _RT_SPECIAL = [0.0, -0.0, 1.0, -1.0, 5e-324, -5e-324, 2.2250738585072014e-308, 2.225073858507201e-308, 1.7976931348623157e308, -1.7976931348623157e308, 1e16, 1e-7, 123456789.12345679, 2.0**53, 2.0**53 + 2, 1e22, 1e23, 0.1, 1 / 3, 1234567.0, 0.30000000000000004, 100000.5, 1e-5, 0.0001, 1e21, 9007199254740993.0, 4.35, 0.000123456789]
@@ -819,7 +819,7 @@ def _decode_rect(data: bytes):
 
 
 def rect_case():
-    return st.binary(min_size=64, max_size=64).map(_decode_rect)
+    return st.binary(min_size=128, max_size=128).map(_decode_rect)
 
 
 _DEC_ANGLES = [0.0, 90.0, -90.0, 180.0, 270.0, 45.0, 30.0, 89.99999, 90.0000001, 90.00000001, 269.9999999, 1e-7]
@@ -847,7 +847,7 @@ def _decode_decompose(data: bytes):
 
 
 def decompose_case():
-    return st.binary(min_size=64, max_size=64).map(_decode_decompose)
+    return st.binary(min_size=96, max_size=96).map(_decode_decompose)
 
 
 SUBCHECKS = {
